@@ -285,9 +285,19 @@ namespace nmtools::utils
                 // TODO: use maybe type
                 auto t_shape = ::nmtools::shape(t);
                 auto u_shape = ::nmtools::shape(u);
-                nmtools_cassert( ::nmtools::utils::isequal(t_shape,u_shape)
-                    , "shape mismatch for isclose"
-                );
+                // arrays of different shape are not close (and must not be read past the smaller one)
+                if ((nm_size_t)len(t_shape) != (nm_size_t)len(u_shape)) {
+                    return false;
+                }
+                {
+                    constexpr auto t_n = meta::len_v<decltype(t_shape)>;
+                    constexpr auto u_n = meta::len_v<decltype(u_shape)>;
+                    if constexpr (!((t_n > 0) && (u_n > 0) && (t_n != u_n))) {
+                        if (!::nmtools::utils::isequal(t_shape,u_shape)) {
+                            return false;
+                        }
+                    }
+                }
                 auto t_indices = ndindex(t_shape);
                 auto u_indices = ndindex(u_shape);
                 auto numel = t_indices.size();
